@@ -53,7 +53,9 @@ def vocab():
 
 _ARGS = {}
 ARG_A = ['{}', '{}', '{x}', '{description}', '{name,description}', '{text,first}', '{99999999999}', '{-1}', '{a=}{,b}', '{name=n,description=}{x}', '{k={v}', '{a b}', '{ }', 'x', '{\\foo}', '{%\n}', ' {}', '{german}', '{1}', '{x=y}', '', '{{}}',
-         '{\\x}', '{$}', '{#1}', '{\u00b2}', '{\u2460}', '{\u0663}', '{ 2 }']
+         '{\\x}', '{$}', '{#1}', '{\u00b2}', '{\u2460}', '{\u0663}', '{ 2 }',
+         # package / class / file names given as paths
+         '{../styles/x}', '{.}', '{..}', '{amsmath, ../x ,babel}', '{./x}', '{/abs/x}', '{a..b}', '{.yvm.nonexistent}']
 ARG_O = ['', '', '[]', '[x]', '[99999999999]', '[12]', '[0]', '[description]', '[-3]', '[ ]', '[1]', '[german]', '[a=b,c]', '[{]}]', '[', '[\\foo]', '[a=}{]', '[a={b},c=}{d]',
          '[a=}]', '[=]', '[,=,]', '[a={}]',
          # digits that are no decimal digits, non-ASCII decimal digits, blanks around a number
@@ -86,10 +88,12 @@ DEFS = [None, None, None,
         '\\newcommand{\\x}[2][\\verb|dd| e]{#1 ee #2}\n\\LTinput{/nonexistent}\n',
         '%%% LT-SKIP-BEGIN\n', '{', '\\footnote{', '$', '\\begin{verbatim}']
 REPLS = [None, None, None, ['a & bbbb\n'], ['w & \n', 'x x & y\n'], ['B & BBBBBBBBBBBBBBBBBBBBBBBBBBBBBBBBBB\n'],
-         ['. & !!!!\n', '# c\n', ' & z\n'], ['LATEXXXERROR & e\n'], ['zz & longer replacement text here\n']]
+         ['. & !!!!\n', '# c\n', ' & z\n'], ['LATEXXXERROR & e\n'], ['zz & longer replacement text here\n'],
+         # deletions and replacements of words that the generated documents surely contain (macro bodies)
+         ['ybodya & \n', 'ybodyc & yc\n'], ['ybodyb & \n', 'ybodyd ydflt & \n', 'ybodye & ybodye with more words\n']]
 PACKS = ['*', '*', '*', '', '*,cleveref', '*,.yvm.ext', '*,cleveref,.yvm.ext', 'babel', 'amsmath,amsthm',
-         'glossaries,biblatex', 'xspace,hyperref', 'nonexistentpack', 'tikz,listings,graphicx']
-DCLS = ['', '', '', 'article', 'book', 'report', 'scrartcl', 'scrbook', 'scrreprt']
+         'glossaries,biblatex', 'xspace,hyperref', 'nonexistentpack', 'tikz,listings,graphicx', '..x', '.', '../y,amsmath', ',', '*,']
+DCLS = ['', '', '', 'article', 'book', 'report', 'scrartcl', 'scrbook', 'scrreprt', '../cls/thesis', '.', 'nonexistentclass']
 LANGS = [None, 'en', 'de', 'ru', 'xx-YY', 'en-GB', 'de-DE', 'ru-RU', '']
 EXTR = [None, None, None, None, 'footnote', 'input,include', 'section,foo', 'x,y,caption', 'item,verb']
 
